@@ -37,6 +37,9 @@ NormOne(s) ==
     [] s.k = "if"    -> <<[k |-> "if", c |-> s.c, th |-> Norm(s.th), el |-> Norm(s.el)]>>
     \* FOR v = x TO y STEP z: first v is assigned x, then y and z are evaluated and the loop
     \* is entered: two steps, an interrupt may fall between them
+    \* INPUT: the prompt / wait, then one step per variable taking its field of the reply (the
+    \* implementation can be interrupted between two of them)
+    [] s.k = "input" -> <<s>> \o [j \in 1..Len(s.vs) |-> [k |-> "infield", i |-> j, n |-> Len(s.vs), v |-> s.vs[j]]]
     [] s.k = "for"   -> <<[k |-> "for1", v |-> s.v, a |-> s.a],
                           [k |-> "for2", v |-> s.v, b |-> s.b, c |-> s.c]>>
     [] OTHER -> <<s>>
